@@ -96,8 +96,28 @@ def run_meta(r):
                                    "font-style: italic !important; font-style: slanted; %s: %s }" % (name, value))
         dup_conj = s_d.cssRules.length > 1 and (bool(s_d.valid) == all(bool(p.valid) for p in s_d.cssRules[1].style.getProperties(all=True))
                                                  and bool(s_d.cssRules[1].valid) == all(bool(p.valid) for p in s_d.cssRules[1].style.getProperties(all=True)))
+        # ... a declaration inside a margin box of an @page rule whose own declarations are valid
+        s_pm = cssutils.parseString("b { left: 1px } @page { margin: 1cm; @top-left { %s: %s } }" % (name, value))
+        pm_rule = s_pm.cssRules[1] if s_pm.cssRules.length > 1 else None
+        pm_decls = [p for m in pm_rule.cssRules for p in m.style.getProperties(all=True)] if pm_rule is not None else []
+        pm_conj = pm_rule is not None and bool(s_pm.valid) == bool(pm_rule.valid) == all(bool(p.valid) for p in pm_decls)
+        # with the default profiles restricted to CSS 2.1 the verdict is computed outside a parse (errors would be raised there):
+        # it is an answer, not an exception, and the declaration is stored with validation on exactly as with validation off
+        prof = cssutils.profile
+        prof.defaultProfiles = prof.CSS_LEVEL_2
+        try:
+            o_r, _ = outcome(lambda: bool(css.Property(name, value).valid))
+            def stored(validating):
+                st = css.CSSStyleDeclaration(validating=validating)
+                st.cssText = "left: 0; %s: %s" % (name, value)
+                return [(p.name, p.value) for p in st.getProperties(all=True)]
+            o_on, d_on = outcome(lambda: stored(True))
+            o_off, d_off = outcome(lambda: stored(False))
+            restricted_ok = o_r == "ok" and o_on == "ok" and o_off == "ok" and d_on == d_off
+        finally:
+            prof.defaultProfiles = None
         s_p = cssutils.parseString("b { left: 1px } @page { %s: %s }" % (name, value))
-        nested = {"page_sheet": bool(s_p.valid), "media_sheet": bool(s_m.valid), "ff_sheet": bool(s_f.valid), "ff_decl": bool(f_decl[-1].valid) if f_decl else True, "ff_dup_conj": bool(dup_conj),
+        nested = {"page_sheet": bool(s_p.valid), "media_sheet": bool(s_m.valid), "ff_sheet": bool(s_f.valid), "ff_decl": bool(f_decl[-1].valid) if f_decl else True, "ff_dup_conj": bool(dup_conj), "page_margin_conj": bool(pm_conj), "restricted_ok": bool(restricted_ok),
                   "ff_others": all(bool(p.valid) for p in s_f.cssRules[1].style.getProperties(all=True) if p not in f_decl) if s_f.cssRules.length > 1 else True}
         sheet = cssutils.parseString("a { %s: %s }" % (name, value))
         rule = sheet.cssRules[0]
@@ -128,7 +148,7 @@ def run_meta(r):
     out, o = outcome(f)
     if out != "ok":
         o = {"out": out, "fontface": [], "fontface_rule_conj": True, "base": False, "spellings": [], "roundtrip": False, "origins": [], "rulevalid": False, "sheetvalid": False,
-             "nested": {"page_sheet": False, "media_sheet": False, "ff_sheet": False, "ff_decl": False, "ff_others": True, "ff_dup_conj": True}, "text_validate_on": "", "text_validate_off": "", "dom_validate_on": [], "dom_validate_off": []}
+             "nested": {"page_sheet": False, "media_sheet": False, "ff_sheet": False, "ff_decl": False, "ff_others": True, "ff_dup_conj": True, "page_margin_conj": True, "restricted_ok": True}, "text_validate_on": "", "text_validate_off": "", "dom_validate_on": [], "dom_validate_off": []}
     return o
 
 
